@@ -132,6 +132,10 @@ func (g *vgen) fill(v reflect.Value, ann string, depth int) {
 		if g.r.Intn(2) == 0 {
 			ms = g.r.Int63n(1 << 40)
 		}
+		if g.r.Intn(8) == 0 {
+			// a Duration is signed: negative whole milliseconds are values too
+			ms = -[]int64{1, 5, 255, 256, 7200000, 1 << 33}[g.r.Intn(6)]
+		}
 		d := time.Duration(ms) * time.Millisecond
 		if t.Kind() == reflect.Ptr {
 			if g.r.Intn(3) == 0 {
